@@ -3,7 +3,7 @@
    Only ExtrOcamlBasic is used: nat, N, Z, positive stay the extracted inductives. *)
 From Coq Require Import List ZArith NArith Extraction ExtrOcamlBasic.
 From LMBase Require Import Res ListX IEEE.
-From LMScore Require Import ScoreModel SimdModel GenAvx2 GenLane4 ScoreCheck.
+From LMScore Require Import ScoreModel SimdModel GenAvx2 GenLane4 ScoreCheck GenScores ScoresModel.
 
 Definition x_of_bits : Z -> f32 := F32.of_bits.
 Definition x_to_bits : f32 -> Z := F32.to_bits.
@@ -28,8 +28,19 @@ Definition x_layout_ok : bool :=
   andb (andb (avx2_layout_ok avx2_permute_consts) (avx2_layout_ok avx2_gather_consts))
        (lane4_layout_ok sse2_consts).
 
+(* histories on one reused StripedScores buffer (ScoresModel.v); the logical content is read through
+   the functions written from the statement skeleton of scores.rs (GenScores.v) *)
+Definition x_hstep : nat -> hop -> sscores f32 -> res (sscores f32) := f_hstep.
+Definition x_ref_call : nat -> hop -> res (sscores f32) := ref_call.
+Definition x_sk_unstripe (C : nat) := @sk_unstripe f32 C.
+Definition x_sk_index := @sk_index f32.
+Definition x_sk_is_empty := @sk_is_empty f32.
+Definition x_sk_iter_end (C : nat) := @sk_iter_end f32 C.
+Definition x_sk_resize (C : nat) := @sk_resize f32 F32.zero C.
+Definition x_sk_empty (C : nat) := @sk_empty f32 F32.zero C.
+
 Extraction Language OCaml.
 Extraction "score_model.ml"
   x_of_bits x_to_bits x_striped_b x_score_def x_generic_rows_into x_avx2_rows_into
   x_sse2_rows_into x_dispatch_rows_into x_score_with x_unstripe x_sc_get x_iter_ops x_offset x_score_position
-  x_layout_ok check_value check_values check_C01 check_same_results check_subrange passes f32_terms f32_sum feqb seq_R.
+  x_layout_ok x_hstep x_ref_call x_sk_unstripe x_sk_index x_sk_is_empty x_sk_iter_end x_sk_resize x_sk_empty check_value check_values check_C01 check_same_results check_subrange passes f32_terms f32_sum feqb seq_R.
